@@ -6,6 +6,7 @@ package main
 
 import (
 	"fmt"
+	"go/ast"
 	"go/token"
 	"go/types"
 	"sort"
@@ -544,6 +545,15 @@ func c16(p *Prog, r *Report) {
 			// in-place append onto a field
 			if c, ok := w.Site.(*ssa.Call); ok {
 				if b, ok := c.Call.Value.(*ssa.Builtin); ok && b.Name() == "append" {
+					// append(x.F[:k], ...) rebuilds the field inside the storage of its
+					// previous value: whoever was handed that value sees it change
+					if sl, isSl := c.Call.Args[0].(*ssa.Slice); isSl && sl.High != nil {
+						if T0, f0, ok0 := fieldOfAppendBase(sl.X); ok0 && (ast.IsExported(f0) || f0 == "raw") {
+							clean = false
+							r.Fail(R2, key, p.InstrPos(c), "append onto a truncated view of "+typeShort(T0)+"."+f0+" overwrites the field's previous value in place; that value is caller-visible (handed out earlier)")
+							continue
+						}
+					}
 					T, fld, found := fieldOfAppendBase(c.Call.Args[0])
 					if found {
 						okF, why := appendSafeHere(p, c, T, fld)
